@@ -748,6 +748,7 @@ pub fn judge_under_faults(plan: &ClientPlan, run: &ClientRun) -> Judged {
         }
     }
     let all_reqs: Vec<ReqLog> = run.pt.lock().unwrap().requests.clone();
+    let all_fired: Vec<crate::pt::FaultFired> = run.pt.lock().unwrap().fired.clone();
     // receipts the terminal offered for reservations carrying a given reference
     let offered = |tok: &[u8]| -> Vec<u16> {
         all_reqs
@@ -884,6 +885,29 @@ pub fn judge_under_faults(plan: &ClientPlan, run: &ClientRun) -> Judged {
                             j.fail("C08", "summary", "commit", format!("summary (amount {:?}, trace {:?}, date {:?}, time {:?}) differs from the status information of the exchange the terminal completed (amount {:?}, trace {:?}, date {:?}, time {:?})", amount, trace_number, date, time, s.amount, s.trace, s.date, s.time));
                         }
                         j.stats.hit("probe.summary_compared");
+                    }
+                }
+                // bounded liveness of the clean-up: when the only trouble of this call was a connection
+                // that the terminal closed cleanly *between* two exchanges (nothing half-done anywhere),
+                // the client reconnects and the clean-up still runs to its end: end-of-day reaches the terminal
+                {
+                    let fired_here: Vec<FaultKind> = all_fired.iter().filter(|f| o.log_from <= f.seq && f.seq < o.log_to).map(|f| f.kind).collect();
+                    let cleanup = match op {
+                        OpSpec::Commit { cleanup, .. } | OpSpec::Cancel { cleanup, .. } => cleanup,
+                        _ => unreachable!(),
+                    };
+                    let own_completed = own_last.map(|l| l.completed == Some(true)).unwrap_or(false);
+                    if own_completed
+                        && open.is_empty()
+                        && !fired_here.is_empty()
+                        && fired_here.iter().all(|k| *k == FaultKind::CloseIdle)
+                        && cleanup.cancel.end == EndSpec::Completion
+                        && run.connect_log.iter().all(|(_, c)| matches!(c, crate::client::ConnectSpec::Ok))
+                    {
+                        j.stats.hit("probe.cleanup_after_idle_close");
+                        if !reqs.iter().any(|r| r.pkt.as_ref().map(|p| p.cf == (0x06, 0x50)).unwrap_or(false)) {
+                            j.fail("C19", "cleanup_not_completed", name, format!("{name}({token:?}) was completed by the terminal and left nothing open; the connection was merely closed between two exchanges, yet no end-of-day request reached the terminal (requests of this call: {:?})", pk.iter().map(|p| p.cf).collect::<Vec<_>>()));
+                        }
                     }
                 }
                 if !open.is_empty() && pk.iter().any(|p| p.cf == (0x06, 0x50) || (p.cf == (0x06, 0x23) && p.get(0x87) == Some(&[0xff, 0xff][..]))) {
